@@ -396,10 +396,13 @@ SCENARIO_UNITS = {
     'C02': [('consumer', 400, 'delivery order / no concurrent invocation across fetch replies, retries and compaction gaps')],
     'C04': [('magic_fallback', 1, 'message format chosen before the API version is known (Producer._send_requests + failed discovery): deterministic reproducer')],
     'C01': [('broker_aware', 300, 'KafkaClient._send_broker_aware_request with acks=0/1 and failing brokers (polymorphic @inlineCallbacks code)')],
-    'C07': [('broker_aware', 300, 'one request per broker, responses in payload order, failed payloads accounted for exactly once')],
+    'C07': [('broker_aware', 300, 'every payload routed to its leader / the coordinator, one request per broker with exactly its payloads, responses in payload order whatever order brokers answer in, failed payloads accounted for exactly once, no request when a payload has no leader'),
+            ('broker_unaware', 1, 'fallback order of broker-agnostic requests: connected brokers, other known brokers, every bootstrap host, then unavailable')],
     'C20': [('client_close', 400, 'nested close aggregates (_close_brokerclients) across metadata refreshes and close()'),
             ('bootstrap_close', 1, 'operation pending on a bootstrap connection attempt at close(): deterministic reproducer')],
-    'C08': [('metadata_merge', 300, '_merge_topic_metadata / reset_topic_metadata (dict-of-dict code with KeyError control flow)')],
+    'C08': [('metadata_merge', 300, '_merge_topic_metadata / reset_topic_metadata / _update_brokers (dict-of-dict code with KeyError control flow): topic view, broker addresses, connections closed by a full refresh only'),
+            ('handle_responses', 1, '_handle_responses: which answers invalidate which cached routing'),
+            ('broker_aware', 300, 'a failed send invalidates the cached routing')],
     'C06': [('brokerclient', 300, 'close()/cancel/response interleavings with re-entrant cancellation from callbacks')],
     'C15': [('assignment', 300, '_round_robin_assignment (sets, itertools.cycle, nested defaultdict) over member-order permutations')],
     'C18': [('partitioner', 300, 'round-robin fairness counted over k*n-selection windows with in-place and replaced lists (the per-step cycle contract is proved; the window count is its arithmetic consequence, not machine-checked); pure_murmur2 re-compared natively with the Java transcription')],
